@@ -5,6 +5,7 @@ package ban
 import (
 	"encoding/json"
 	"fmt"
+	"github.com/emitter-io/emitter/internal/security"
 	"math/rand"
 	"os"
 	"sort"
@@ -97,10 +98,25 @@ func Replay(walk []json.RawMessage, label string, lic int) (*core.Trace, error) 
 	master := nodes["b1"].b.MasterKey()
 	tr := &core.Trace{Label: label}
 	tr.Events = append(tr.Events, core.Ev(map[string]any{"e": "reset", "license": lic}))
+	// after every step: is each key accepted on each broker right now?  (Service.Authorize, what every request starts with)
+	state := func() map[string]map[string]bool {
+		out := map[string]map[string]bool{}
+		for bn, n := range nodes {
+			out[bn] = map[string]bool{}
+			for k, ks := range keys {
+				_, _, ok := n.b.Svc.Authorize(security.ParseChannel([]byte(ks+"/use/"+k+"/")), security.AllowRead)
+				out[bn][k] = ok
+			}
+		}
+		return out
+	}
 	for _, raw := range walk {
 		var a action
 		if err := json.Unmarshal(raw, &a); err != nil {
 			return nil, err
+		}
+		if len(tr.Events) > 1 {
+			// the observation belongs to the previous event (taken now so that a failed step returns early without it)
 		}
 		switch a.N {
 		case "ban", "unban":
@@ -115,7 +131,7 @@ func Replay(walk []json.RawMessage, label string, lic int) (*core.Trace, error) 
 					status = p.Code
 				}
 			}
-			tr.Events = append(tr.Events, core.Ev(map[string]any{"e": a.N, "b": a.B, "k": a.K, "status": status}))
+			tr.Events = append(tr.Events, core.Ev(map[string]any{"e": a.N, "b": a.B, "k": a.K, "status": status, "state": state()}))
 		case "use":
 			n := nodes[a.B]
 			ok := true
@@ -135,7 +151,7 @@ func Replay(walk []json.RawMessage, label string, lic int) (*core.Trace, error) 
 					ok = false
 				}
 			}
-			tr.Events = append(tr.Events, core.Ev(map[string]any{"e": "use", "b": a.B, "k": a.K, "op": a.Op, "ok": ok}))
+			tr.Events = append(tr.Events, core.Ev(map[string]any{"e": "use", "b": a.B, "k": a.K, "op": a.Op, "ok": ok, "state": state()}))
 		case "restart":
 			n := nodes[a.B]
 			n.b.Close()
@@ -145,14 +161,14 @@ func Replay(walk []json.RawMessage, label string, lic int) (*core.Trace, error) 
 				tr.Events = append(tr.Events, core.Ev(map[string]any{"e": "restart-failed", "b": a.B, "err": err.Error()}))
 				return tr, nil
 			}
-			tr.Events = append(tr.Events, core.Ev(map[string]any{"e": "restart", "b": a.B}))
+			tr.Events = append(tr.Events, core.Ev(map[string]any{"e": "restart", "b": a.B, "state": state()}))
 		case "gossip":
 			src, dst := nodes[a.From], nodes[a.To]
 			enc := src.b.Svc.VerifCluster().Gossip().Encode()
 			if _, err := dst.b.Svc.VerifCluster().OnGossip(enc[0]); err != nil {
 				return nil, fmt.Errorf("OnGossip: %v", err)
 			}
-			tr.Events = append(tr.Events, core.Ev(map[string]any{"e": "gossip", "from": a.From, "to": a.To}))
+			tr.Events = append(tr.Events, core.Ev(map[string]any{"e": "gossip", "from": a.From, "to": a.To, "state": state()}))
 		default:
 			return nil, fmt.Errorf("unknown action %q", a.N)
 		}
@@ -172,7 +188,7 @@ func cfg(keys string, maxOps int, gen string, view bool) string {
 func Run(c *core.Ctx) {
 	c.Level = "model_checking"
 	rng := rand.New(rand.NewSource(c.Seed))
-	mcOps, edgeOps, num, depth := 6, 4, 40, 14
+	mcOps, edgeOps, num, depth := 6, 5, 120, 14
 	if !c.Quick() {
 		mcOps, edgeOps, num, depth = 7, 5, 400, 20
 	}
